@@ -334,7 +334,7 @@ SITE_OF = {
 }
 
 
-INV2_NAMES = ['wfx2', 'sched', 'next', 'svc2', 'ren', 'prio', 'rows2', 'blk2', 'srv2', 'idle2', 'clk2', 'cnt2', 'clk2r', 'noinv', 'slot', 'clk2p']
+INV2_NAMES = ['wfx2', 'sched', 'next', 'svc2', 'ren', 'prio', 'rows2', 'blk2', 'srv2', 'idle2', 'clk2', 'cnt2', 'clk2r', 'noinv', 'slot', 'clk2p', 'clk2s']
 
 
 def check_trace(tr, drv, max_frames=80, mask=None, detail=False, inv_mask=None, grid=None):
